@@ -185,6 +185,7 @@ typedef struct {
     Janet pv;          /* the parser (abstract), GC-rooted */
     uint8_t *bytes;    /* exact-size heap copy: ASan sees over-reads */
     size_t len, pos;
+    int rawerr;        /* 'R': take errors without draining the value queue first (values queued at that time are dropped) */
     size_t eofoff;     /* added to the position label once parser/eof was called (same byte position, different phase) */
     Txt ev, tr;
     int nvalues;
@@ -278,7 +279,7 @@ static void handle_error(Run *r) {
     Janet a[1] = { r->pv };
     tr_status(r, "es");
     tr_where(r, "ew");
-    drain(r);
+    if (!r->rawerr) drain(r);
     tr_status(r, "es2");
     if (pcallc(cfun_parse_error, 1, a, &out)) { tx_puts(&r->ev, "e:PANIC "); return; }
     tx_puts(&r->ev, "e:");
@@ -406,6 +407,8 @@ static void run_case(const char *hex, const char *sched) {
             case 'D': drain(&r); break;
             case 'e': { Janet o; Janet a[1] = { r.pv }; if (pcallc(cfun_parse_error, 1, a, &o)) tr_panic(&r, "e", o); else tx_printf(&r.tr, "@%zu:e=%s ", r.pos + r.eofoff, janet_checktype(o, JANET_NIL) ? "nil" : "NOTNIL"); } break;
             case 'f': { Janet o; Janet a[1] = { r.pv }; drain(&r); if (pcallc(cfun_parse_flush, 1, a, &o)) tr_panic(&r, "f", o); } break;
+            case 'F': { Janet o; Janet a[1] = { r.pv }; if (pcallc(cfun_parse_flush, 1, a, &o)) tr_panic(&r, "F", o); } break;
+            case 'R': r.rawerr = 1; break;
             case 'E': op_eof(&r); break;
             case 'G': janet_collect(); break;
             default: tx_printf(&r.tr, "BADOP%c ", op); break;
